@@ -527,7 +527,53 @@ fn long_runs<C: Subject>(codec: &C, rep: &mut Report) -> (u64, u64) {
     (runs, nontrivial)
 }
 
+/// LinesCodec streams containing one frame longer than the buffer marks.
+fn long_frame_runs(rep: &mut Report) -> (u64, u64) {
+    let codec = LinesCodec::default();
+    let mut runs = 0;
+    for big in [1023usize, 1024, 1025, 8191, 8192, 8193, 9000, 16384, 20000, 70000] {
+        let mut data = b"short line\r\n".to_vec();
+        data.extend(std::iter::repeat(b'x').take(big));
+        data.extend_from_slice(b"\nnext\nlast line without newline");
+        for ch in [1usize, 100, 1000, 1024, 4096, 8192, usize::MAX] {
+            if ch == 1 && big > 20000 {
+                continue;
+            }
+            for variant in 0..3 {
+                let mut script = vec![];
+                let mut off = 0;
+                let mut r = 0;
+                while off < data.len() {
+                    let n = ch.min(data.len() - off);
+                    if variant == 1 && r % 2 == 1 {
+                        script.push(Step::Pending);
+                    }
+                    if variant == 2 && off <= big && off + n > big {
+                        script.push(Step::Err);
+                    }
+                    script.push(Step::Data(data[off..off + n].to_vec()));
+                    off += n;
+                    r += 1;
+                }
+                runs += 1;
+                if let Some(mut v) = check(&codec, &script) {
+                    v.signature = format!("{}:long-frame", v.signature);
+                    v.replay = json!({"codec": "LinesCodec", "long_frame": {"frame_len": big, "chunk": if ch == usize::MAX { 0 } else { ch }, "variant": variant}});
+                    v.summary = format!("stream with one {big}-byte line, chunk size {ch}, variant {variant}: {}", &v.summary[..v.summary.len().min(120)]);
+                    rep.violation(v);
+                }
+            }
+        }
+    }
+    (runs, runs)
+}
+
 fn replay_one<C: Subject>(codec: &C, r: &Value, rep: &mut Report) {
+    if r.get("long_frame").is_some() {
+        println!("long-frame case {}: re-run by the normal check (deterministic)", r["long_frame"]);
+        long_frame_runs(rep);
+        return;
+    }
     if let Some(l) = r.get("long") {
         println!("long-stream case {l}: re-run by the normal check (deterministic)");
         long_runs(codec, rep);
@@ -589,6 +635,10 @@ pub fn run(args: &Args) -> i32 {
         long_total += r;
         nontrivial += nt;
     }
+    let (lf, lfn) = long_frame_runs(&mut rep);
+    long_total += lf;
+    nontrivial += lfn;
+    rep.set("long_frame_runs", lf);
     rep.set("long_stream_runs", long_total);
     total += long_total;
     rep.sample(json!({"codec": "LinesCodec", "script": [{"data": "a\\r"}, "pending", {"data": "\\na"}, "io-error", {"data": "\\xff\\n"}], "expected_items": ["a", "<io error>", "<InvalidData>"]}));
